@@ -502,7 +502,8 @@ func HandleSetUser(cc *hotline.ClientConn, t *hotline.Transaction) (res []hotlin
 
 	// Notify connected clients logged in as the user of the new access level
 	for _, c := range cc.Server.ClientMgr.List() {
-		if c.Account.Login == login {
+		// A connection that has not completed its login yet is registered but has no account.
+		if c.Account != nil && c.Account.Login == login {
 			newT := hotline.NewTransaction(hotline.TranUserAccess, c.ID, hotline.NewField(hotline.FieldUserAccess, newAccessLvl))
 			res = append(res, newT)
 
@@ -607,7 +608,7 @@ func HandleUpdateUser(cc *hotline.ClientConn, t *hotline.Transaction) (res []hot
 			}
 
 			for _, client := range cc.Server.ClientMgr.List() {
-				if client.Account.Login == login {
+				if client.Account != nil && client.Account.Login == login {
 					//					"You are logged in with an account which was deleted."
 
 					res = append(res,
@@ -766,7 +767,7 @@ func HandleDeleteUser(cc *hotline.ClientConn, t *hotline.Transaction) (res []hot
 	}
 
 	for _, client := range cc.Server.ClientMgr.List() {
-		if client.Account.Login == login {
+		if client.Account != nil && client.Account.Login == login {
 			res = append(res,
 				hotline.NewTransaction(hotline.TranServerMsg, client.ID,
 					hotline.NewField(hotline.FieldData, []byte("You are logged in with an account which was deleted.")),
